@@ -7,6 +7,8 @@ monotonicity monitor for the open best along the distance axis.
 """
 import json
 import os
+import decimal
+import fractions
 import random
 import sys
 
@@ -119,7 +121,7 @@ class Monitor(object):
         gender, age, event = args[:3]
         y = self.year_of(kwargs, args, 3)
         g = gender[0].lower() if isinstance(gender, str) and gender else None
-        if g not in ('m', 'f') or isinstance(age, bool) or not isinstance(age, (int, float)):
+        if g not in ('m', 'f') or isinstance(age, bool) or not isinstance(age, (int, float, decimal.Decimal, fractions.Fraction)):
             return
         d_m = self.query(y, g, event)
         if d_m is None:
@@ -312,6 +314,15 @@ def run_shard(ctx, spec):
             for code in ('20', '42', '49', '75', '150', '350', '2400', '7000', '11K', '5.3M', '30000', '150001', '250000', '400000', '260K', '249M'):
                 for (y, g) in combos:
                     attach.call(a.wma_age_factor, g, age, code, year=y)
+    if True:
+        # every age between two columns of the table (k + 1/4, k + 3/4), and the same ages as Decimal / Fraction, at a few
+        # distances off both ends of the table and inside it
+        for k in range(5 + part, 112, nparts):
+            for age in (k + 0.25, k + 0.75, decimal.Decimal(k) + decimal.Decimal('0.5'), fractions.Fraction(4 * k + 1, 4)):
+                for code in ('20', '42', '52', '7K', '11K', '250K', '2400'):
+                    for (y, g) in combos:
+                        attach.call(a.wma_age_factor, g, age, code, year=y)
+                        ctx.count('eval.fractional-age-sweep')
     ctx.require('judged.factor-envelope', 500)
     ctx.require('judged.best-envelope', 500)
 
